@@ -353,11 +353,9 @@ def nonceMismatch (tx : Tx) (st : St) : Bool :=
   | some n => decide (n ≠ st.nonce)
   | none => false
 
-/-- `optimism::validate_tx_against_state` (sender without code); returns the loaded `l1_block_info` -/
-def validateTxAgainstState (tx : Tx) (s : Slots) (st : St) : VRes :=
-  if tx.isDeposit then .ok none
-  else
-    let info := tryFetch s tx.spec
+/-- `optimism::validate_tx_against_state` of a regular transaction once `context.evm.inner.l1_block_info`
+holds `info` (sender without code); returns the `l1_block_info` it leaves in the context -/
+def validateWith (tx : Tx) (info : L1Info) (st : St) : VRes :=
     if nonceMismatch tx st then .err .nonce
     -- EIP-2681 (commit 84adfb43): after the equality check, a transaction nonce of 2^64-1 is rejected
     else if tx.txNonce = some (U64 - 1) then .err .nonceOverflow
@@ -375,6 +373,17 @@ def validateTxAgainstState (tx : Tx) (s : Slots) (st : St) : VRes :=
             match (if enabled tx.spec CANCUN then checkedAdd bc tx.maxDataFee else some bc) with
             | none => .err .overflow
             | some bc => if bc > st.bal tx.caller then .err .funds else .ok (some info)
+
+/-- `optimism::validate_tx_against_state` with the context's `l1_block_info` (`ctx`): a deposit leaves it
+alone; a regular transaction fetches it from the L1Block contract only `if l1_block_info.is_none()` -/
+def validateTxAgainstStateCtx (tx : Tx) (s : Slots) (st : St) (ctx : Option L1Info) : VRes :=
+  if tx.isDeposit then .ok ctx
+  else validateWith tx (match ctx with | some i => i | none => tryFetch s tx.spec) st
+
+/-- the same on a context whose `l1_block_info` is `None` (what `clear` leaves behind) -/
+def validateTxAgainstState (tx : Tx) (s : Slots) (st : St) : VRes :=
+  if tx.isDeposit then .ok none
+  else validateWith tx (tryFetch s tx.spec) st
 
 inductive DRes
   | err (e : Err)
@@ -568,5 +577,60 @@ def transactWithOld (tx : Tx) (s : Slots) (pre : St) (exec : St → St) (fr : Fr
 `last_frame_return` is the given one, except that frames which fail before running are halts -/
 def transact (tx : Tx) (s : Slots) (pre : St) (fr : Frame) : Outcome :=
   transactWith tx s pre (fun st => execSimple tx st fr) fr
+
+/-! ### several transactions on one `Evm` -/
+
+/-- `optimism::clear`: `context.evm.inner.l1_block_info = None` after every transaction — together with it
+the per-transaction cache `tx_l1_cost` is dropped -/
+def clearCtx (_tx : Tx) (_ctx : Option L1Info) : Option L1Info := none
+
+/-- a `clear` that keeps `l1_block_info` for the following transactions and drops it only after a deposit
+(NOT the code; kept for the regression theorem: the cached `tx_l1_cost` of the first regular transaction would
+then be charged to every later one) -/
+def clearCtxKeep (tx : Tx) (ctx : Option L1Info) : Option L1Info := if tx.isDeposit then none else ctx
+
+/-- `Evm::transact` on a context whose `l1_block_info` is `ctx`; returns the outcome and the
+`l1_block_info` that the transaction's `clear` (a parameter) leaves -/
+def transactCtx (clear : Tx → Option L1Info → Option L1Info) (tx : Tx) (s : Slots) (pre : St)
+    (exec : St → St) (fr : Frame) (ctx : Option L1Info) : Outcome × Option L1Info :=
+  match validateEnv tx with
+  | some e => (endErr tx pre e, clear tx ctx)
+  | none =>
+    match validateInitialGas tx with
+    | some e => (endErr tx pre e, clear tx ctx)
+    | none =>
+      match validateTxAgainstStateCtx tx s pre ctx with
+      -- `l1_block_info` was loaded before the failing check (all failing checks come after the fetch)
+      | .err e => (endErr tx pre e,
+          clear tx (if tx.isDeposit then ctx else some (match ctx with | some i => i | none => tryFetch s tx.spec)))
+      | .panic => (.panic, clear tx ctx)
+      | .ok info => (runTx tx pre info exec fr, clear tx info)
+
+/-- one transaction of a history: the transaction, the L1Block slots in the database when it runs, the
+result of its first frame -/
+structure Step where
+  tx : Tx
+  slots : Slots
+  fr : Frame
+
+/-- the state committed after a transaction (`db.commit(result.state)`; nothing after an error) -/
+def commit (pre : St) : Outcome → St
+  | .done _ _ _ st => st
+  | _ => pre
+
+/-- a history of transactions on one `Evm` (frames of the harness), each committed: the outcomes -/
+def runHistory (clear : Tx → Option L1Info → Option L1Info) : St → Option L1Info → List Step → List Outcome
+  | _, _, [] => []
+  | st, ctx, p :: ps =>
+    let r := transactCtx clear p.tx p.slots st (fun x => execSimple p.tx x p.fr) p.fr ctx
+    r.1 :: runHistory clear (commit st r.1) r.2 ps
+
+/-- the same history with every transaction run by the single-transaction function on the committed state
+and ITS OWN slots and envelope -/
+def runHistoryFresh : St → List Step → List Outcome
+  | _, [] => []
+  | st, p :: ps =>
+    let o := transact p.tx p.slots st p.fr
+    o :: runHistoryFresh (commit st o) ps
 
 end Revm.Model.OpFees
